@@ -20,6 +20,15 @@ CHECKS = {
          "plus long scripts across the 120-pending / 40-poll limits. Exhaustive over the enumerated scripts only.",
          "reply classes are constructed byte strings; classification itself is C03's subject. " + TRUST,
          "DESIGN.md section 4, C04"),
+ "C06": ("TLA+ design model of DoIPConnection (reader task, read queue, FIFO mutex, ack wait, alive check; maximal-progress "
+         "timers) model-checked by TLC; timed contract monitor (DoipContract) used by TLC to validate traces of the real "
+         "DoIPTransport on a hand-fed StreamReader under virtual time; TLC-simulated schedules replayed into the code",
+         "Exhaustive model checking of all gateway frame sequences up to 4 (quick) / 5-6 (thorough) frames interleaved with "
+         "three client programs; TLC trace validation of every real execution for all gateway choice vectors up to the "
+         "frame budget at every phase-relative injection point, every single split point of canonical exchanges, all 256 "
+         "activation types and response codes. Not a proof: conformance is exhaustive over the enumerated families only.",
+         "in-memory TCP stream (real asyncio.StreamReader, recording writer); ISO 13400-2 timing constants 2000/500 ms. " + TRUST,
+         "DESIGN.md section 4, C06"),
 }
 PENDING = {}
 
